@@ -20,9 +20,25 @@ Definition cop (o : op) : bool :=
   end.
 Fixpoint cops (t : term) : bool :=
   match t with T o args => cop o && (fix all (l : list term) : bool := match l with [] => true | x :: r => cops x && all r end) args end.
-Definition cfrag (t : term) : bool := okt t && cops t.
+(* the exponents for which Pow folds whatever the base: the non-negative ones (0 ^ negative raises:
+   open finding) *)
+Definition exp_nn (e : term) : bool :=
+  match e with T (OIntC y) [] => (0 <=? y)%Z | T (ORealC n _) [] => (0 <=? n)%Z | _ => true end.
+Definition pow_node_nn (o : op) (args : list term) : bool :=
+  match o, args with OPow, [_; e] => exp_nn e | _, _ => true end.
+Fixpoint pownn (t : term) : bool :=
+  match t with
+  | T o args => pow_node_nn o args && (fix all (l : list term) : bool := match l with [] => true | x :: r => pownn x && all r end) args
+  end.
+Definition cfrag (t : term) : bool := okt t && cops t && pownn t.
 Lemma cops_unfold o args : cops (T o args) = cop o && forallb cops args.
 Proof. reflexivity. Qed.
+Lemma pownn_unfold o args : pownn (T o args) = pow_node_nn o args && forallb pownn args.
+Proof. reflexivity. Qed.
+Lemma cfrag_parts t : cfrag t = true -> okt t = true /\ cops t = true /\ pownn t = true.
+Proof. unfold cfrag. intros H. apply andb_true_iff in H. destruct H as [H H3]. apply andb_true_iff in H. tauto. Qed.
+Lemma cfrag_intro t : okt t = true -> cops t = true -> pownn t = true -> cfrag t = true.
+Proof. unfold cfrag. now intros -> -> ->. Qed.
 
 (* no division whose divisor evaluates to zero, anywhere in the term (also in branches not taken) *)
 Fixpoint nodiv0 (I : interp) (t : term) {struct t} : Prop :=
@@ -445,7 +461,7 @@ Qed.
 
 Lemma rule_const ora o cs ty : okt (T o cs) = true -> tc (T o cs) = Some ty -> cop o = true ->
   Forall kconst cs ->
-  (match o, cs with ODiv, [_; b] => is_zero b = false | _, _ => True end) ->
+  (match o, cs with ODiv, [_; b] => is_zero b = false | OPow, [_; e] => exp_nn e = true | _, _ => True end) ->
   exists c, rule ora o cs = Some c /\ kconst c.
 Proof.
   intros Hok Htc Hc K Hdiv.
@@ -662,7 +678,7 @@ Proof.
     destruct cs as [|a [|e rest]]; try discriminate.
     destruct rest; [|destruct e as [[] [|]]; discriminate Hn].
     destruct (pow_shape a e ty Hok Htc) as [-> Hsh]. inversion K as [|? ? Ka _]; subst.
-    destruct Hsh as [[Na (y & -> & Hy)]|[Na (m & -> & Hm)]].
+    destruct Hsh as [[Na (y & ->)]|[Na (m & ->)]]; cbn in Hdiv; apply Z.leb_le in Hdiv; [pose proof Hdiv as Hy | pose proof Hdiv as Hm].
     + destruct (nterm_kconst_nconst TInt a (or_introl eq_refl) Na Ka) as [[_ (z & ->)]|[E _]]; [|discriminate E].
       unfold r_pow. cbn [num_value top TIntC constant_value].
       assert (Hc2 : negb (fst (z, 1%Z) =? 0)%Z || fr_leb (0%Z, 1%Z) (y, 1%Z) = true).
@@ -706,22 +722,24 @@ Theorem fold_constant : forall ora I t ty, cfrag t = true -> tc t = Some ty -> w
   exists c, simplify_opt ora t = Some c /\ kconst c.
 Proof.
   intros ora I. induction t as [o args IH] using term_ind'. intros ty Hf Htc Hwf Hnd.
-  unfold cfrag in Hf. apply andb_true_iff in Hf. destruct Hf as [Hok Hcs].
+  destruct (cfrag_parts _ Hf) as (Hok & Hcs & Hpn).
   rewrite cops_unfold in Hcs. apply andb_true_iff in Hcs. destruct Hcs as [Ho Hcs]. rewrite forallb_forall in Hcs.
+  rewrite pownn_unfold in Hpn. apply andb_true_iff in Hpn. destruct Hpn as [Hpo Hpn]. rewrite forallb_forall in Hpn.
   pose proof (okt_args _ _ Hok) as Fa. pose proof (okt_node _ _ Hok) as Hn.
   destruct (tc_inv _ _ _ Htc) as (tys & Ht & Hr).
   pose proof (nodiv0_args _ _ _ Hnd) as Fn.
   (* the arguments fold to constants *)
   assert (Hargs : exists cs, map_opt (simplify_opt ora) args = Some cs /\ Forall kconst cs /\
                              Forall2 (fun a c => simplify_opt ora a = Some c) args cs).
-  { clear Hr Hn Htc Hok Hnd. revert tys Ht. induction args as [|a r IHr]; intros tys Ht.
+  { clear Hr Hn Htc Hok Hnd Hpo Hf. revert tys Ht. induction args as [|a r IHr]; intros tys Ht.
     - exists []. repeat split; constructor.
     - cbn in Ht. destruct (tc a) as [ta|] eqn:Ta; [|discriminate]. destruct (tcs r) as [tr|] eqn:Tr; [|discriminate].
       inversion Fa; subst. inversion Fn; subst.
       destruct (Forall_inv IH ta) as (c & Ec & Kc); auto.
-      { unfold cfrag. rewrite H1. apply Hcs. cbn; auto. }
+      { apply cfrag_intro; [exact H1 | apply Hcs; cbn; auto | apply Hpn; cbn; auto]. }
       destruct (IHr (Forall_inv_tail IH)) with (tys := tr) as (cs & Em & Kcs & F2); auto.
       { intros x Hx. apply Hcs. cbn; auto. }
+      { intros x Hx. apply Hpn. cbn; auto. }
       exists (c :: cs). cbn. rewrite Ec, Em. repeat split; constructor; auto. }
   destruct Hargs as (cs & Em & Kcs & F2).
   rewrite simplify_opt_unfold, Em.
@@ -740,8 +758,15 @@ Proof.
       + discriminate Ho.
       + eapply ok_node_pow; eauto. }
   assert (Htc' : tc (T o cs) = Some ty) by (rewrite tc_tcs, Tcs; exact Hr).
-  assert (Hdiv : match o, cs with ODiv, [_; b] => is_zero b = false | _, _ => True end).
-  { destruct o; try exact Logic.I. destruct cs as [|a' [|b' [|? ?]]]; try exact Logic.I.
+  assert (Hdiv : match o, cs with ODiv, [_; b] => is_zero b = false | OPow, [_; e] => exp_nn e = true | _, _ => True end).
+  { destruct o; try exact Logic.I.
+    2:{ (* pow: the exponent is a constant, simplification leaves it alone *)
+        destruct cs as [|a' [|e' [|? ?]]]; try exact Logic.I.
+        inversion F2 as [|a ? ? ? Ea F2']; subst. inversion F2' as [|e ? ? ? Ee F2'']; subst. inversion F2''; subst.
+        cbn [pow_node_nn] in Hpo. cbn [ok_node] in Hn.
+        destruct e as [oe le]. destruct oe; try discriminate Hn; destruct le; try discriminate Hn;
+          rewrite simplify_constant in Ee by exact Logic.I; inversion Ee; subst; exact Hpo. }
+    destruct cs as [|a' [|b' [|? ?]]]; try exact Logic.I.
     inversion F2 as [|a ? ? ? Ea F2']; subst. inversion F2' as [|b ? ? ? Eb F2'']; subst. inversion F2''; subst.
     destruct Hnd as [Hz _]. inversion Kcs as [|? ? _ K']; subst. inversion K' as [|? ? Kb _]; subst.
     destruct (is_zero b') eqn:Z; auto. exfalso. apply Hz.
@@ -764,7 +789,7 @@ Proof.
   intros ora I t ty Hf Htc Hwf Hnd.
   destruct (fold_constant ora I t ty Hf Htc Hwf Hnd) as (c & Ec & Kc).
   exists c. split; auto. split; [now apply kconst_is_const|].
-  unfold cfrag in Hf. apply andb_true_iff in Hf. destruct Hf as [Hok Hcs].
+  destruct (cfrag_parts _ Hf) as (Hok & Hcs & _).
   destruct (simplify_sound_stages ora t I ty c Hok Htc Hwf Ec) as [[_ Tc] Ev]. split; auto.
   apply Ev. now apply nodiv0_div_safe.
 Qed.
